@@ -18,6 +18,18 @@ from opalg_trees import vals
 
 KNOWN_NEG_INDEX = "freeze-slice-negative-index"
 KNOWN_DREP_OA = "diagonal-replicated-output-axis"
+KNOWN_CIRC_RC = "circconv-closed-form-output-dtype"
+
+
+def circ_rc_still_fails(env):
+    """witness: 2.0 * CircularConvolve(complex h, (4,), input_dtype=float64) declares float64 output and drops Im"""
+    jnp, linop = env.jnp, env.linop
+    A = linop.CircularConvolve(jnp.asarray([1 + 1j, 2 - 1j, 0, 0.5j], dtype="complex128"), (4,), input_dtype=np.dtype("float64"))
+    x = jnp.asarray([1.0, 2.0, -1.0, 0.5], dtype="float64")
+    try:
+        return not np.allclose(np.asarray((2.0 * A)(x)), 2.0 * np.asarray(A(x)))
+    except Exception:  # noqa: BLE001
+        return True
 
 
 def drep_oa_still_fails(env):
@@ -347,6 +359,22 @@ def cases(env, rng, thorough=False, parts=("stacks", "freeze", "circ", "conv")):
                     yield (f"Circ{hs}/{ins}/{nd} {nm} c={c!r} ch={cplx_h}", ("circ", nm, hs, ins, nd, repr(c), cplx_h), check_op(env, f, W, "CircularConvolve " + nm, tol=1e-8))
     # (quick: one mode per seed here - the closed forms of 1-d Convolve are swept for all modes by conv_tie with the Lean model)
     conv_modes = ("full", "valid", "same") if thorough else (("full", "valid", "same")[int(rng.integers(3))],)
+    # a complex filter on a REAL input space (real -> complex operator): the closed forms must keep the complex output
+    # (known finding circconv-closed-form-output-dtype while fixes/opalg-17 is not applied); values only - the adjoint of a
+    # real -> complex operator is only real-linear
+    for hs, ins, nd in (circ_cfgs[:2] if circ_cfgs else ()):
+        try:
+            mkrc = lambda: linop.CircularConvolve(jnp.asarray(vals(rng, hs, True), dtype="complex128"), ins, ndims=nd, input_dtype=np.dtype("float64"))  # noqa: E731
+            A, B = mkrc(), mkrc()
+            DA, DB = dense(env, A), dense(env, B)
+        except Exception:  # noqa: BLE001
+            continue
+        for nm, f, W in (("A+B", lambda: A + B, DA + DB), ("A-B", lambda: A - B, DA - DB), ("c*A", lambda: 2.0 * A, 2.0 * DA), ("A/c", lambda: A / 2.0, DA / 2.0)):
+            fl = check_op(env, f, (lambda x, W=W: W @ x), "CircularConvolve " + nm + " (complex filter, real input)", linear=False, tol=1e-8)
+            if fl:
+                fl["known_id"] = KNOWN_CIRC_RC
+                fl["operand_declares"] = [np.dtype(A.input_dtype).name, np.dtype(A.output_dtype).name]
+            yield (f"Circ{hs}/{ins}/{nd} R->C {nm}", ("circ-rc", nm, hs, ins, nd), fl)
     for mode in (dict.fromkeys(conv_modes) if "conv" in parts else ()):
         for hs, ins in ((((2,), (4,)), ((3,), (3,)), ((2, 2), (3, 4))) if thorough else (((2,), (4,)), ((2, 2), (3, 4)))):
             for cplx_h in (False, True):
